@@ -105,6 +105,36 @@ def run(ctx):
     ctx.ob("field/exp-table", q, len(EXP) >= 509 and not bad, f"length {len(EXP)}, wrong entries at {bad[:8]}", loc)
     bad = [v for v in range(1, 256) if v >= len(LOG) or LOG[v] != log[v]]
     ctx.ob("field/log-table", q, len(LOG) >= 256 and not bad, f"length {len(LOG)}, wrong entries for values {bad[:8]}", loc)
+    # any other 256-entry integer table of the class (products of a coefficient with every field element, remainders of
+    # value * x^k ...) is indexed by a data symbol inside a LINEAR encoder: it has to be GF(2)-linear in its index
+    ctx.rule("field/tables-linear", "a further 256-entry integer table of the class that is GF(2)-linear in its index except at a few entries (feedback products / remainders with a wrong entry) is reported: the encoder that indexes it with a data symbol is linear")
+
+    def leaves256(v, path):
+        if isinstance(v, (list, tuple)) and len(v) == 256 and all(isinstance(x, int) and not isinstance(x, bool) for x in v):
+            yield path, list(v)
+        elif isinstance(v, (list, tuple)) and len(v) <= 64:
+            for i_, x in enumerate(v):
+                yield from leaves256(x, f"{path}[{i_}]")
+        elif isinstance(v, dict) and len(v) <= 64:
+            for k_, x in v.items():
+                yield from leaves256(x, f"{path}[{k_!r}]")
+    n_tab = 0
+    for attr in sorted(ci.assigns):
+        if attr in ("EXPONENTIAL_TABLE", "LOG_TABLE") or attr in ci.methods:
+            continue
+        try:
+            val = repo.class_const(ci, attr)
+        except Unfoldable:
+            continue
+        for path, T in leaves256(val, attr):
+            n_tab += 1
+            badl = [i_ for i_ in range(256) if T[i_] != (0 if i_ == 0 else __import__("functools").reduce(lambda a_, b_: a_ ^ b_, [T[1 << k_] for k_ in range(8) if i_ >> k_ & 1], 0))]
+            if len(badl) > 16 or T == LOG[:256] or any(T == EXP[o_:o_ + 256] for o_ in range(0, max(len(EXP) - 255, 0))):
+                # not a linear map at all (a logarithm / antilogarithm / inverse table): not a table of this kind
+                ctx.info(f"{q}.{path}: a 256-entry table that is not linear in its index at {len(badl)} positions — a non-linear map (log / exp / inverse), not judged by this rule")
+                continue
+            ctx.ob("field/tables-linear", f"{q}.{path}", not badl, f"a table that is GF(2)-linear in its index except at entries {badl[:8]}" if badl else "linear", loc)
+    ctx.ob("field/tables-linear", f"{q} | all tables", True, f"{n_tab} further 256-entry table(s)", loc)
     g = [1]
     for j in (1, 2, 3):
         g = alg.poly_mul_gf256(g, [exp[j], 1], PRIM)
